@@ -34,7 +34,7 @@ ANCHORS = [
                               "_process_generation", "_process_generation_async", "_submit_generation",
                               "_submit_func", "_run_and_process_generation", "_run_and_process_generation_async",
                               "_update_array", "_output_from_mapspec_task", "_dump_single_output",
-                              "_maybe_persist_memory", "_expose_error_snapshots"]),
+                              "_maybe_persist_memory", "_expose_error_snapshots", "_keep_completed_elements"]),
     ("pipefunc/map/_prepare.py", ["prepare_run", "_cannot_be_parallelized"]),
 ]
 RULE = ("pipelines of harness/pipegen.py (1..5 structural functions; every output; root arguments as keywords, and for "
@@ -598,50 +598,9 @@ def distribution(c):
     return d
 
 
-F_SINGLE = "C13-seq-generation-single-output-dropped"
-F_DICT = "C13-seq-generation-dict-elements-dropped"
-
-
-def _is_mapped(fd):
-    return bool(fd.get("spec") and fd["spec"]["i"])
-
-
 def finding_id(c, impl_obs, kind):
-    """Known findings: in the sequential path (no executor) a generation is post-processed only after ALL of its
-    functions ran, so when one of them raises (a) the value of a function without MapSpec inputs that already ran in
-    that generation is never written, (b) with storage='dict' (no dump_in_subprocess) the elements computed in that
-    generation are never dumped.  The id is returned only when the rest of the observation is as the property
-    demands (raised unchanged, note, failing call last, snapshot) and the store shows exactly that loss."""
-    if c["kind"] != "map" or _base(c["mode"]) != "seq" or c["idx"] < 0:
-        return None
-    try:
-        res, note, lines, snap, store = impl_obs
-    except Exception:  # noqa: BLE001
-        return None
-    cls, args = exc_desc(c["exc"])
-    if res != ["raised", cls, args] or note[:2] != ["note", c["ffn"]] or not lines or lines[-1] != c["tgt"]:
-        return None
-    if snap[:2] != ["snap", c["ffn"]] or snap[3:] != [[cls, args]] * 3:
-        return None
-    by_name = {f["name"]: f for f in c["req"]["funcs"]}
-    gen = next((g for g in c["gens"] if c["ffn"] in g), None)
-    if gen is None:
-        return None
-    stored = {o: v for o, v in store}
-    before = gen[: gen.index(c["ffn"])]
-    for n in before:
-        if not _is_mapped(by_name[n]) and all(stored.get(o) == ["none"] for o in by_name[n]["outs"]):
-            return F_SINGLE
-    if c["req"]["storage"] == "dict":
-        ncalls_f = sum(1 for ln in lines[:-1] if ln.split("(", 1)[0] == c["ffn"])
-        cands = [n for n in before if _is_mapped(by_name[n])]
-        if _is_mapped(by_name[c["ffn"]]) and ncalls_f > 0:
-            cands.append(c["ffn"])
-        for n in cands:
-            for o in by_name[n]["outs"]:
-                v = stored.get(o)
-                if isinstance(v, list) and v and v[0] == "arr" and all(x == "--" for x in v[2]):
-                    return F_DICT
+    """No known findings are left for C13 (the two sequential-path findings 'results of the failing generation are
+    dropped' were repaired by the fix 'keep the results that completed before a function raised')."""
     return None
 
 
